@@ -1207,22 +1207,21 @@ end Ggrs.P2P
 namespace Ggrs
 open InputQueue
 
-/-- **A locally detected drop** (`disconnect_player`, or one step of the Disconnected event of an
-endpoint): `disconnect_player_at_frame` for a remote player with that player's own last frame.
-The players behind the address are marked; the session invariant survives with their disconnects
-pending — `disconnect_frame` is at or before the frame after each one's last frame whenever the
-session has simulated beyond it. Environment assumption `hsame`: the players of one endpoint have
-received the same frames (their inputs travel in the same packets). -/
-theorem drop_specD (s s' : P2P) (gh : DGhost) (t0 : TLState) (reqs : List Request) (st0 : List ConnStatus)
+/-- **`disconnect_player_at_frame` for a remote player, in general.** The frame passed may be the
+player's own last frame (a locally detected drop) or an earlier one (a cut-off adopted from the
+other peers' reports): the invariant survives as long as that frame is not beyond the last frame
+of any player of the endpoint that is still connected (`hlow`) and not before the last frame of any
+player whose queue has been given up (`hgone`) — the call then schedules a re-simulation that never
+reaches into a queue that no longer holds its inputs. The statuses keep their own last frames. -/
+theorem drop_specG (s s' : P2P) (gh : DGhost) (t0 : TLState) (reqs : List Request) (st0 : List ConnStatus)
     (now handle addr : Nat) (lastFrame : Frame) (ep : Endpoint)
     (h : SessInvD s gh t0 reqs st0)
     (hpt : s.playerType handle = some (.remote addr)) (hep : P2P.findEp s.remotes addr = some ep)
     (hrem : ∀ g, g ∈ ep.handles → g ∉ s.localPlayerHandles)
-    (hown : handle < s.sync.queues.length ∧ (rget st0 handle).disconnected = false ∧
-      lastFrame = (rget s.localConnectStatus handle).lastFrame)
     (hlf0 : -1 ≤ lastFrame)
-    (hsame : ∀ g, g ∈ ep.handles → g < s.sync.queues.length → (rget s.localConnectStatus g).disconnected = false →
-      (rget s.localConnectStatus g).lastFrame = lastFrame)
+    (hlow : ∀ g, g ∈ ep.handles → g < s.sync.queues.length → (rget s.localConnectStatus g).disconnected = false →
+      lastFrame ≤ (rget s.localConnectStatus g).lastFrame)
+    (hgone : ∀ g, g < s.sync.queues.length → gh.gone g → (rget s.localConnectStatus g).lastFrame ≤ lastFrame)
     (hdrop : s.disconnectPlayerAtFrame now handle lastFrame = .ok s') :
     SessInvD s' gh t0 reqs st0 ∧ s'.sync = s.sync ∧ s'.handles = s.handles ∧ s'.pred = s.pred ∧
       (∀ g, (rget s.localConnectStatus g).disconnected = true → (rget s'.localConnectStatus g).disconnected = true) ∧
@@ -1297,22 +1296,22 @@ theorem drop_specD (s s' : P2P) (gh : DGhost) (t0 : TLState) (reqs : List Reques
         · exact hin
         · have := f3 p hin
           rw [this, hc] at h1; cases h1
-      have hL := hsame p hin hp hc
-      rw [← h.marks.last p, hL]
+      have hL := hlow p hin hp hc
+      rw [← h.marks.last p]
       by_cases hgt : s.sync.currentFrame > lastFrame + 1
       · rcases hdf' with he | ⟨_, hne, _, hle, _⟩
         · right
           rw [fdf, if_pos hgt]
           by_cases hd2 : (s.disconnectFrame == NULL_FRAME) = true
-          · rw [if_pos hd2]; exact ⟨by rw [hnull]; omega, Int.le_refl _⟩
+          · rw [if_pos hd2]; exact ⟨by rw [hnull]; omega, by omega⟩
           · rw [if_neg hd2]
             have hne : s.disconnectFrame ≠ NULL_FRAME := by simpa using hd2
             have h0' : 0 ≤ s.disconnectFrame := by
               rcases h.dfok with hx | hx
               · exact absurd hx hne
               · exact hx
-            exact ⟨by rw [hnull]; omega, Int.min_le_right _ _⟩
-        · exact Or.inr ⟨hne, hle⟩
+            exact ⟨by rw [hnull]; omega, Int.le_trans (Int.min_le_right _ _) (by omega)⟩
+        · exact Or.inr ⟨hne, by omega⟩
       · left; omega
   · intro p hp hng
     rw [fsync] at hp ⊢
@@ -1329,8 +1328,7 @@ theorem drop_specD (s s' : P2P) (gh : DGhost) (t0 : TLState) (reqs : List Reques
     intro g hg hgg
     rw [fsync] at hg ⊢
     have hs := h.safe g hg hgg
-    have hlt : (rget s.localConnectStatus g).lastFrame < lastFrame := by
-      rw [hown.2.2]; exact hs.2.2 handle hown.1 hown.2.1
+    have hlt : (rget s.localConnectStatus g).lastFrame ≤ lastFrame := hgone g hg hgg
     refine ⟨?_, ?_, ?_⟩
     · intro hne
       rw [f2]
@@ -1349,5 +1347,37 @@ theorem drop_specD (s s' : P2P) (gh : DGhost) (t0 : TLState) (reqs : List Reques
     · exact Or.inr h0
   · intro g hin hg
     exact f1 g hin (by rw [hn1]; exact hg)
+
+/-- **A locally detected drop** (`disconnect_player`, or one step of the Disconnected event of an
+endpoint): `disconnect_player_at_frame` for a remote player with that player's own last frame.
+The players behind the address are marked; the session invariant survives with their disconnects
+pending — `disconnect_frame` is at or before the frame after each one's last frame whenever the
+session has simulated beyond it. Environment assumption `hsame`: the players of one endpoint have
+received the same frames (their inputs travel in the same packets). -/
+theorem drop_specD (s s' : P2P) (gh : DGhost) (t0 : TLState) (reqs : List Request) (st0 : List ConnStatus)
+    (now handle addr : Nat) (lastFrame : Frame) (ep : Endpoint)
+    (h : SessInvD s gh t0 reqs st0)
+    (hpt : s.playerType handle = some (.remote addr)) (hep : P2P.findEp s.remotes addr = some ep)
+    (hrem : ∀ g, g ∈ ep.handles → g ∉ s.localPlayerHandles)
+    (hown : handle < s.sync.queues.length ∧ (rget st0 handle).disconnected = false ∧
+      lastFrame = (rget s.localConnectStatus handle).lastFrame)
+    (hlf0 : -1 ≤ lastFrame)
+    (hsame : ∀ g, g ∈ ep.handles → g < s.sync.queues.length → (rget s.localConnectStatus g).disconnected = false →
+      (rget s.localConnectStatus g).lastFrame = lastFrame)
+    (hdrop : s.disconnectPlayerAtFrame now handle lastFrame = .ok s') :
+    SessInvD s' gh t0 reqs st0 ∧ s'.sync = s.sync ∧ s'.handles = s.handles ∧ s'.pred = s.pred ∧
+      (∀ g, (rget s.localConnectStatus g).disconnected = true → (rget s'.localConnectStatus g).disconnected = true) ∧
+      (∀ g, g ∈ ep.handles → g < s.sync.queues.length → (rget s'.localConnectStatus g).disconnected = true) ∧
+      (∀ g, (rget s'.localConnectStatus g).lastFrame = (rget s.localConnectStatus g).lastFrame) ∧
+      (s.sync.currentFrame ≤ lastFrame + 1 → s'.disconnectFrame = s.disconnectFrame) ∧
+      (∀ g, g ∉ ep.handles → rget s'.localConnectStatus g = rget s.localConnectStatus g) ∧
+      s'.outgoingLocalInputs = s.outgoingLocalInputs ∧ s'.lastSentOutgoingInputFrame = s.lastSentOutgoingInputFrame := by
+  refine drop_specG s s' gh t0 reqs st0 now handle addr lastFrame ep h hpt hep hrem hlf0 ?_ ?_ hdrop
+  · intro g hin hg hc
+    rw [hsame g hin hg hc]; exact Int.le_refl _
+  · intro g hg hgg
+    have := (h.safe g hg hgg).2.2 handle hown.1 hown.2.1
+    rw [← hown.2.2] at this
+    omega
 
 end Ggrs
